@@ -86,6 +86,9 @@ def _work(arg):
         if type(e).__name__ == "BaseSyncFailed":
             return {"job": job, "states": 1, "transitions": 1, "wall": time.perf_counter() - t0,
                     "violations": [{"kind": "base-sync-failed", "sig": "base", "detail": {"error": str(e)[:400]}, "hist": []}]}
+        if type(e).__name__ == "PreFailed":      # phased job whose preparatory history does not end converged: gated out
+            return {"job": job, "states": 1, "transitions": 1, "wall": time.perf_counter() - t0, "violations": [],
+                    "sample": {"note": "gated: %s" % e}, "extra": {"base_runs_gated_out": 1}}
         v = _component_raised(e)
         if v is not None:
             return {"job": job, "states": 1, "transitions": 1, "wall": time.perf_counter() - t0, "violations": [v]}
